@@ -289,7 +289,7 @@ structure Inv (st : St) : Prop where
   idsPos : ∀ b ∈ st.list, b.id ≠ TOMBSTONE → 1 ≤ b.id
   liveFn : ∀ b ∈ st.list, b.id ≠ TOMBSTONE → b.fn ≠ none
   tombIter : ∀ b ∈ st.list, b.id = TOMBSTONE → st.isIter = true ∧ st.needsDelete = true
-  slotPos : ∀ id ∈ st.slotIds, 1 ≤ id
+  slotPos : ∀ id ∈ st.slotIds, 0 ≤ id
   logKeys : ∀ e ∈ st.log, ∀ k, e.key? = some k → k < st.slotIds.length
   boundInfo : ∀ b ∈ st.list, ∃ id ev first, Ev.bound b.key id ev first b.flags ∈ st.log ∧ (b.id ≠ TOMBSTONE → ev = b.ev ∧ id = b.id)
   liveIff : ∀ k, liveKey st.list k ↔ liveAt st.log k
